@@ -34,7 +34,6 @@ Theorem C02_loop_branches_match_groups :
                                         | _, _ => false end) (fst row)) sel_loop_table = true
   /\ flat_map fst sel_loop_table = doc_group DT ++ doc_group DF ++ doc_group DB ++ ["weights"%string; "flags"%string].
 Proof. exact loop_table_matches_groups. Qed.
-Print Assumptions C02_loop_branches_match_groups.
 
 (* ------------------------------------------------------------------ histories *)
 
@@ -43,7 +42,6 @@ Print Assumptions C02_loop_branches_match_groups.
    criterion can be evaluated and already holds of its mask, and a retained weights / flags entry is the current one. *)
 Theorem C02_invariant : forall o s, reachable o s -> Inv o s.
 Proof. exact reachable_inv. Qed.
-Print Assumptions C02_invariant.
 
 (* MAIN.  For every observation, every reachable state and every further call (distinct keywords, as Python
    guarantees), the model of the code and the documented rule agree: same exception class, or the same three masks
@@ -60,7 +58,6 @@ Proof.
   intros o s kw s1 H. pose proof (reachable_inv o s H) as HI.
   apply idempotent; [exact (inv_wf _ _ HI) | exact (inv_nodup _ _ HI)].
 Qed.
-Print Assumptions C02_idempotent.
 
 (* Keyword order is irrelevant, now and after any common continuation of the history. *)
 Theorem C02_kw_order : forall o s kw kw' rest, reachable o s ->
@@ -70,13 +67,11 @@ Proof.
   intros o s kw kw' rest H. pose proof (reachable_inv o s H) as HI.
   apply kw_order; [exact (inv_wf _ _ HI) | exact (inv_nodup _ _ HI)].
 Qed.
-Print Assumptions C02_kw_order.
 
 (* The order of the entries of _selection never matters: equivalent states stay equivalent under any history. *)
 Theorem C02_selection_order_irrelevant : forall o calls s s', wf_st o s -> st_equiv s s' ->
   Forall (fun c => NoDup (keys c)) calls -> res_equiv (run o s calls) (run o s' calls).
 Proof. exact run_equiv. Qed.
-Print Assumptions C02_selection_order_irrelevant.
 
 (* Reset laws, for every reachable state. *)
 Theorem C02_reset_laws : forall o s, reachable o s ->
@@ -102,7 +97,6 @@ Proof.
   split; [exact spec_reset_explicit|]. split; [exact spec_reset_auto|].
   intros kw s' d Nk Hs H1 H2. rewrite (select_dim o s kw s' d HI Nk Hs). apply untouched_dim; assumption.
 Qed.
-Print Assumptions C02_reset_laws.
 
 (* flags= / weights= never change the masks (reused by C16, C03): a call carrying only these keywords succeeds,
    leaves the three masks alone and sets exactly the named selection(s); and any successful call that does not
@@ -120,7 +114,6 @@ Proof.
   - intros Hne Hk. apply flags_weights_only; assumption.
   - intros s' Hs. exact (flags_kept o s kw s' HI Nk Hs).
 Qed.
-Print Assumptions C02_flags_weights_never_change_masks.
 
 (* strict: an unknown keyword raises TypeError before anything is touched; strict=False never does, and the unknown
    keyword contributes no mask. *)
@@ -133,7 +126,6 @@ Proof.
   intros o s kw k. split; [apply strict_unknown_rejected|].
   split; [intros v; apply nonstrict_never_typeerror | intros v; apply unknown_kw_no_mask].
 Qed.
-Print Assumptions C02_strict.
 
 (* ------------------------------------------------------------------ what each criterion keeps *)
 
@@ -143,14 +135,12 @@ Theorem C02_timerange_wholly_inside : forall o lo hi i,
   (nth i (timerange_mask o lo hi) false = true <->
    exists d, nth_error (o_dumps o) i = Some d /\ lo <= d_ts d - o_half o /\ d_ts d + o_half o <= hi).
 Proof. exact timerange_wholly_inside. Qed.
-Print Assumptions C02_timerange_wholly_inside.
 
 Theorem C02_freqrange_wholly_inside : forall o lo hi i,
   crit o "freqrange" (VRange lo hi) = CMask DF (freqrange_mask o lo hi) /\
   (nth i (freqrange_mask o lo hi) false = true <->
    exists f, nth_error (o_freqs o) i = Some f /\ lo <= f - o_halfw o /\ f + o_halfw o <= hi).
 Proof. exact freqrange_wholly_inside. Qed.
-Print Assumptions C02_freqrange_wholly_inside.
 
 (* scans by index / state / ~state: what one item keeps; '~x' keeps exactly what 'x' drops. *)
 Theorem C02_scans_item : forall o it i,
@@ -158,13 +148,11 @@ Theorem C02_scans_item : forall o it i,
   exists d, nth_error (o_dumps o) i = Some d /\
             match it with SIdx z => d_scan d = z | SName id => d_state d = id | SNot id => d_state d <> id end.
 Proof. exact scans_item. Qed.
-Print Assumptions C02_scans_item.
 
 Theorem C02_tilde_negates : forall o id,
   scans_mask o [SNot id] = map negb (scans_mask o [SName id]) /\
   compscans_mask o [SNot id] = map negb (compscans_mask o [SName id]).
 Proof. exact tilde_negates. Qed.
-Print Assumptions C02_tilde_negates.
 
 (* unknown target names and unknown tags select nothing. *)
 Theorem C02_unknown_target_or_tag_selects_nothing : forall o id i,
@@ -173,7 +161,6 @@ Theorem C02_unknown_target_or_tag_selects_nothing : forall o id i,
 Proof.
   intros o id i. split; [apply unknown_target_selects_nothing | apply unknown_tag_selects_nothing].
 Qed.
-Print Assumptions C02_unknown_target_or_tag_selects_nothing.
 
 (* items inside one criterion are ORed (scans, compscans, targets, target_tags). *)
 Theorem C02_or_within : forall o i,
@@ -187,7 +174,6 @@ Proof.
   intros o i. repeat split; intros a b;
     [apply or_within_scans | apply or_within_compscans | apply or_within_targets | apply or_within_tags].
 Qed.
-Print Assumptions C02_or_within.
 
 (* ants: both antennas among the plain names; when all names carry a tilde (or none are given): neither antenna
    among them. *)
@@ -202,7 +188,6 @@ Theorem C02_ants : forall o l i,
        exists cp, nth_error (o_cps o) i = Some cp /\
                   ~ In (ant_of (fst cp)) (map snd l) /\ ~ In (ant_of (snd cp)) (map snd l))).
 Proof. intros o l i. split; [apply ants_membership | apply ants_all_tilde_complement]. Qed.
-Print Assumptions C02_ants.
 
 (* pol: 'h' is 'hh', 'v' is 'vv'; a two-letter item keeps the products with exactly these two polarisations;
    corrprods='cross' is the complement of 'auto'. *)
@@ -216,14 +201,12 @@ Proof.
   intro o. destruct (pol_h_is_hh o) as [A B]. split; [exact A|]. split; [exact B|].
   split; [intros p q i; apply pol_item | apply auto_cross].
 Qed.
-Print Assumptions C02_pol.
 
 (* dumps / channels / corrprods given as slice(a, b) inside the axis keep exactly positions a .. b-1. *)
 Theorem C02_slice_unit_step : forall n a b i, 0 <= a <= Z.of_nat n -> 0 <= b <= Z.of_nat n ->
   exists m, index_mask n (IxSlice (Some a) (Some b) None) = Some m /\
             (nth i m false = true <-> (i < n)%nat /\ a <= Z.of_nat i < b).
 Proof. exact slice_unit_step. Qed.
-Print Assumptions C02_slice_unit_step.
 
 (* ------------------------------------------------------------------ non-vacuity *)
 (* A 12-dump, 3-target observation and a 4-call history (scans+pol; channels; stacked targets; timerange+flags)
@@ -235,7 +218,6 @@ Theorem C02_example :
   /\ flk ex_s4 = VAtom 3
   /\ keys (sel ex_s4) = ["spw"; "subarray"; "pol"; "channels"; "timerange"; "flags"]%string.
 Proof. exact ex_run. Qed.
-Print Assumptions C02_example.
 
 
 (* ==================================================================================================== *)
@@ -272,7 +254,6 @@ Theorem C02_source_comparisons_agree : forall o,
   /\ (forall l, gen_inputs_mask o l = inputs_mask o l)
   /\ (forall cp p q, gen_pol_keep cp p q = pitem_keep cp (PTwo p q)).
 Proof. exact gen_agrees. Qed.
-Print Assumptions C02_source_comparisons_agree.
 
 (* ------------------------------------------------------------------ constructor and invariants *)
 
@@ -286,7 +267,6 @@ Proof.
   intros xo [Hs Hb]. split; [apply xinit_closed; assumption|]. split; [reflexivity|].
   split; [apply window_mask_base | apply XInv_init; assumption].
 Qed.
-Print Assumptions C02_constructor_state.
 
 (* After ANY history (accepted, rejected and part-way failed calls): window and subarray in range, masks of the
    lengths of the current window / subarray, distinct keys, and the time selection inside the dumps recorded with
@@ -295,7 +275,6 @@ Print Assumptions C02_constructor_state.
 Theorem C02_multiwindow_invariant : forall xo s, has_windows xo ->
   (xreach_any xo s -> WInv xo s) /\ (xreach xo s -> XInv xo s).
 Proof. intros xo s H. split; [apply xreach_any_WInv | apply xreach_XInv]; exact H. Qed.
-Print Assumptions C02_multiwindow_invariant.
 
 (* ------------------------------------------------------------------ MAIN (several windows / subarrays) *)
 
@@ -317,7 +296,6 @@ Example C02_multiwindow_refines_example :
   /\ xspec_select ex_xobs (xm_of xs3) xc4 = (OOk, xm_of xs4)
   /\ fst (xspec_select ex_xobs (xm_of xs5) xc_neg) = OIndexError.
 Proof. exact ex_refines_instance. Qed.
-Print Assumptions C02_multiwindow_refines_example.
 
 (* Whole histories: as long as the documented rule never meets a call that raises part-way, outcome and selection
    after EVERY call are those of the documented rule; hence keyword order is irrelevant now and after any
@@ -333,20 +311,17 @@ Theorem C02_multiwindow_kw_order : forall xo s xkw xkw' rest, has_windows xo -> 
   no_partway_failure (xspec_run xo (xm_of s) (xkw :: rest)) ->
   xrun xo s (xkw :: rest) = xrun xo s (xkw' :: rest).
 Proof. intros xo s xkw xkw' rest H R. apply xkw_order. apply xreach_XInv; assumption. Qed.
-Print Assumptions C02_multiwindow_kw_order.
 
 Theorem C02_multiwindow_idempotent : forall xo s xkw s1, has_windows xo -> xreach xo s -> NoDup (map fst xkw) ->
   xselect xo s xkw = (OOk, s1) ->
   exists s2, xselect xo s1 xkw = (OOk, s2) /\ xm_of s2 = xm_of s1 /\ x_pub s2 = x_pub s1.
 Proof. intros xo s xkw s1 H R. apply xidempotent. apply xreach_XInv; assumption. Qed.
-Print Assumptions C02_multiwindow_idempotent.
 
 Example C02_history_example :
   no_partway_failure (xspec_run ex_xobs (xm_of xs0) [xc1; xc2; xc3; xc4; xc5; xc_neg; xc_bogus; xc8])
   /\ xrun ex_xobs xs0 [xc1; xc2; xc3] = xrun ex_xobs xs0 [xc1; xc2; xc3']
   /\ Permutation xc3 xc3'.
 Proof. exact ex_history_instance. Qed.
-Print Assumptions C02_history_example.
 
 (* What a change of window / subarray resets - and what it must NOT touch.  After an accepted call, per dimension:
    fresh-or-old mask ANDed with this call's criteria; a change of window forces time and frequency afresh, a
@@ -365,7 +340,6 @@ Theorem C02_window_change_resets : forall xo s xkw s', has_windows xo -> xreach 
   /\ (forall d, xspec_reset kw chg_spw chg_sub d = false -> hits kw (doc_group d) = false ->
         mget d (x_core s') = mget d (x_core s)).
 Proof. intros xo s xkw s' H R. apply xselect_dims. apply xreach_XInv; assumption. Qed.
-Print Assumptions C02_window_change_resets.
 
 (* spw= / subarray= outside 0 .. n-1 - negative indices included - is rejected (IndexError, or the TypeError of an
    unknown keyword) and nothing is touched. *)
@@ -376,7 +350,6 @@ Theorem C02_window_out_of_range : forall xo s xkw z,
        /\ ~ (0 <= z < Z.of_nat (List.length (x_subs xo))))) ->
   (fst (xselect xo s xkw) = OIndexError \/ fst (xselect xo s xkw) = OTypeError) /\ snd (xselect xo s xkw) = s.
 Proof. exact window_out_of_range. Qed.
-Print Assumptions C02_window_out_of_range.
 
 (* ------------------------------------------------------------------ calls that raise *)
 
@@ -388,7 +361,6 @@ Print Assumptions C02_window_out_of_range.
 Theorem C02_failed_call_atomic_partial : forall xo s xkw oc s', xselect xo s xkw = (oc, s') ->
   oc = OTypeError \/ oc = OIndexError -> s' = s.
 Proof. exact rejected_untouched. Qed.
-Print Assumptions C02_failed_call_atomic_partial.
 
 Theorem C02_failed_call_atomic_refuted :
   exists xo s xkw s' later,
@@ -407,7 +379,6 @@ Theorem C02_failed_call_kw_order_refuted :
     /\ fst (xselect xo s xkw) = OFail /\ fst (xselect xo s xkw') = OFail
     /\ tk (x_core (snd (xselect xo s xkw))) <> tk (x_core (snd (xselect xo s xkw'))).
 Proof. exact failed_call_sees_kw_order. Qed.
-Print Assumptions C02_failed_call_kw_order_refuted.
 
 (* What exactly a call that raised part-way leaves behind, from any state: window / subarray of the call in force,
    public attributes not recomputed, every keyword of the call retained, one retained criterion unevaluable, weak
@@ -422,7 +393,6 @@ Theorem C02_failed_call_state : forall xo s xkw s' spw sub,
   /\ (exists k v, In (k, v) (sel (x_core s')) /\ crit (view_at xo spw sub) k v = CErr)
   /\ WInv xo s'.
 Proof. exact failed_call_state. Qed.
-Print Assumptions C02_failed_call_state.
 
 (* ... and the retained offender makes every later call fail that neither replaces it nor starts its dimension afresh *)
 Theorem C02_poison_persists : forall xo s xkw k v spw sub,
@@ -433,7 +403,6 @@ Theorem C02_poison_persists : forall xo s xkw k v spw sub,
   popped (xreset (x_spw s) (x_sub s) (elab_kw (x_vocab xo) xkw) spw sub) k = false ->
   fst (xselect xo s xkw) = OFail.
 Proof. exact poison_persists. Qed.
-Print Assumptions C02_poison_persists.
 
 (* RECOVERY, from whatever state any history left: select() without arguments is accepted and restores the dumps of
    the current window / subarray, all channels, all products; ANY accepted call re-establishes the strong invariant
@@ -461,7 +430,6 @@ Example C02_recovery_example :
   /\ xspec_fresh ex_xobs (xm_of xs6) [("corrprods"%string, XCore VAuto)] DT = false
   /\ tk (x_core (snd (xselect ex_xobs xs6 [("corrprods"%string, XCore VAuto)]))) = map bb [1;1;0;0;0;0;0;0].
 Proof. exact ex_recovery_instance. Qed.
-Print Assumptions C02_recovery_example.
 
 (* ------------------------------------------------------------------ the forms the caller may use *)
 
@@ -487,7 +455,6 @@ Proof.
   split; [exact sel_to_list_forms|]. split; [exact comma_string_is_list|]. split; [exact elab_scan_forms|].
   split; [exact elab_pol_case | exact elab_ants_desel].
 Qed.
-Print Assumptions C02_surface_forms.
 
 Example C02_surface_forms_example :
   join ["m000"; "~m001"; "m 062"]%string = "m000,~m001,m 062"%string
@@ -503,7 +470,6 @@ Example C02_surface_forms_example :
   /\ elab ex_vocab "inputs" (XBare (AStr "m000h,M000V")) = Some (VInputs [(0, 0); (-1, -1)])
   /\ elab ex_vocab "target_tags" (XBare (AStr "")) = Some (VIds []).
 Proof. exact ex_forms_instance. Qed.
-Print Assumptions C02_surface_forms_example.
 
 (* Index forms of dumps / channels / corrprods: a 0-d or one-element mask is broadcast (True neutral, False
    absorbing); an empty sequence selects nothing; an integer is the one-element list; -k is n-k; duplicates and
@@ -521,7 +487,6 @@ Theorem C02_index_forms : forall n,
 Proof.
   intro n. split; [apply index_forms|]. split; [intros m H; apply mand_ones; exact H | apply slice_step].
 Qed.
-Print Assumptions C02_index_forms.
 
 Example C02_index_forms_example :
   index_mask 5 (IxMask [true]) = Some (map bb [1;1;1;1;1]) /\ index_mask 5 (IxList []) = Some (map bb [0;0;0;0;0])
@@ -530,7 +495,6 @@ Example C02_index_forms_example :
   /\ index_mask 5 (IxSlice None None (Some (-2))) = Some (map bb [1;0;1;0;1])
   /\ index_mask 5 (IxList [5]) = None /\ index_mask 5 (IxMask [true; false]) = None.
 Proof. exact ex_index_instance. Qed.
-Print Assumptions C02_index_forms_example.
 
 (* ------------------------------------------------------------------ public attributes *)
 
@@ -560,7 +524,6 @@ Theorem C02_dumps_ascending : forall m,
   /\ (forall z, In z (nonzero m) <-> exists i, z = Z.of_nat i /\ nth i m false = true)
   /\ Z.of_nat (List.length (nonzero m)) = count m.
 Proof. exact nonzero_spec. Qed.
-Print Assumptions C02_dumps_ascending.
 
 (* ------------------------------------------------------------------ non-vacuity: a two-window history *)
 (* 8 dumps, windows of 4 and 6 channels, subarrays of 3 and 2 products: spw=1; channels=[0,5]; scans='track, scan'
@@ -583,4 +546,55 @@ Proof.
   split; [exact ex_steps|]. split; [exact ex_windows|]. split; [exact ex_reach5|]. split; [exact ex_any6|].
   pose proof ex_masks as M. repeat split; vm_compute; reflexivity.
 Qed.
-Print Assumptions C02_multiwindow_example.
+
+(* ------------------------------------------------------------------ assumptions of everything above *)
+(* One Print Assumptions over the tuple of ALL theorems and examples of this file (individual ones are printed
+   above for the principal theorems only: each costs about a second of checking time). *)
+Definition C02_all_theorems :=
+  (C02_tables_are_documented,
+   C02_loop_branches_match_groups,
+   C02_invariant,
+   C02_refines,
+   C02_idempotent,
+   C02_kw_order,
+   C02_selection_order_irrelevant,
+   C02_reset_laws,
+   C02_flags_weights_never_change_masks,
+   C02_strict,
+   C02_timerange_wholly_inside,
+   C02_freqrange_wholly_inside,
+   C02_scans_item,
+   C02_tilde_negates,
+   C02_unknown_target_or_tag_selects_nothing,
+   C02_or_within,
+   C02_ants,
+   C02_pol,
+   C02_slice_unit_step,
+   C02_example,
+   C02_decisions_are_documented,
+   C02_source_comparisons_agree,
+   C02_constructor_state,
+   C02_multiwindow_invariant,
+   C02_multiwindow_refines,
+   C02_multiwindow_refines_example,
+   C02_history_refines,
+   C02_multiwindow_kw_order,
+   C02_multiwindow_idempotent,
+   C02_history_example,
+   C02_window_change_resets,
+   C02_window_out_of_range,
+   C02_failed_call_atomic_partial,
+   C02_failed_call_atomic_refuted,
+   C02_failed_call_kw_order_refuted,
+   C02_failed_call_state,
+   C02_poison_persists,
+   C02_recovery,
+   C02_recovery_example,
+   C02_surface_forms,
+   C02_surface_forms_example,
+   C02_index_forms,
+   C02_index_forms_example,
+   C02_public_attributes,
+   C02_dumps_ascending,
+   C02_multiwindow_example).
+Print Assumptions C02_all_theorems.
